@@ -97,6 +97,24 @@ Definition visible (c : ctx) (e : ctxe) : bool :=
   | _, _ => false
   end.
 
+(* a template announcement: a fresh one, or -- one time in three -- a REFRESH of a template seen before under the same id:
+   the same element types with other lengths, the same fields in another order, or an identical copy *)
+Definition relen (f : afield) : afield :=
+  let l := aLen f in
+  let l' := if (l =? 1) || (l =? 2) || (l =? 4) then l * 2 else if l =? 8 then 4 else l in
+  {| aEnt := aEnt f; aId := aId f; aLen := l'; aPen := aPen f |}.
+Definition gen_tmpl (ver : N) (ds : list ctxe) : Gen (N * list afield) :=
+  gdo v <- grand 3;
+  match v, ds with
+  | 0, e0 :: _ =>
+      gdo e <- gpick e0 ds;
+      match e with
+      | CData id fs => gdo w <- grand 3; gret (id, match w with 0 => map relen fs | 1 => rev fs | _ => fs end)
+      | _ => gdo id <- gen_tid; gdo fs <- fresh_fields ver; gret (id, fs)
+      end
+  | _, _ => gdo id <- gen_tid; gdo fs <- fresh_fields ver; gret (id, fs)
+  end.
+
 Definition gen_set (ver : N) (c : ctx) : Gen (aset * ctx) :=
   gdo k <- grand 10;
   let ds := data_of_ctx c in
@@ -104,7 +122,7 @@ Definition gen_set (ver : N) (c : ctx) : Gen (aset * ctx) :=
   match k with
   | 0 | 1 =>
       gdo n <- grange 1 3;
-      gdo ts <- glist (N.to_nat n) (gdo id <- gen_tid; gdo fs <- fresh_fields ver; gret (id, fs));
+      gdo ts <- glist (N.to_nat n) (gen_tmpl ver ds);
       gret (ATmpl ts, fold_left (fun cc t => CData (fst t) (snd t) :: cc) ts c)
   | 2 =>
       gdo n <- grange 1 2;
